@@ -36,7 +36,7 @@ class LayerWorld(World):
         dt = rc.choice(DTS)
         B = rc.choice([1, 1, 2, 3])
         cfg = {"kind": kind, "dt": dt, "B": B, "wseed": rc.randrange(1 << 30), "adaptive": rc.random() < 0.4,
-               "updaters": stream(seed, "updaters").random() < 0.4}       # trainable connections: an updater is attached (nothing is ever accumulated)
+               "updaters": stream(seed, "updaters").random() < 0.4, "names": stream(seed, "names").random() < 0.4}   # custom component names       # trainable connections: an updater is attached (nothing is ever accumulated)
         # adaptation is frozen either by eval mode or, in training mode, by adapt=False handed through the layer's neuron kwargs
         cfg["freeze"] = "kwargs" if (cfg["adaptive"] and rc.random() < 0.6) else "eval"
 
@@ -108,7 +108,8 @@ class LayerWorld(World):
 
         kind = cfg["kind"]
         if kind == "serial":
-            return nn_.Serial(conns[0], neurons[0], transform=(None if cfg["transform"] == "id" else (lambda x, **k: TRANSFORMS[cfg["transform"]](x))))
+            names = dict(connection_name="linear", neuron_name="cells") if cfg.get("names") else {}
+            return nn_.Serial(conns[0], neurons[0], transform=(None if cfg["transform"] == "id" else (lambda x, **k: TRANSFORMS[cfg["transform"]](x))), **names)
         if kind == "biclique":
             cs = []
             for i, c in enumerate(conns):
@@ -126,7 +127,9 @@ class LayerWorld(World):
             return nn_.Biclique(cs, ns, combine)
         return nn_.RecurrentSerial(conns[0], conns[1], conns[2], neurons[0], neurons[1],
                                    feedfwd_out_transform=TRANSFORMS[cfg["ff_t"]], lateral_out_transform=TRANSFORMS[cfg["lat_t"]],
-                                   feedback_out_transform=TRANSFORMS[cfg["fb_t"]], trainable_feedback=cfg["trainable_feedback"])
+                                   feedback_out_transform=TRANSFORMS[cfg["fb_t"]], trainable_feedback=cfg["trainable_feedback"],
+                                   **(dict(feedfwd_connection_name="ff_c", lateral_connection_name="lat_c", feedback_connection_name="fb_c", feedfwd_neuron_name="exc",
+                                           feedback_neuron_name="inh") if cfg.get("names") else {}))
 
     # hand-wired reference: the documented order, components called directly
     def _manual_step(self, cfg, conns, neurons, xs, state):
@@ -211,7 +214,8 @@ class LayerWorld(World):
                 return [r[f"n{j}"] for j in range(len(neurons))], None
             r = layer(xs[0], capture_intermediate=capture, feedfwd_neuron_kwargs=nkw, feedback_neuron_kwargs=nkw)
             if capture:
-                return list(r[0]), [r[1]["feedfwd"], r[1]["lateral"], r[1]["feedback"]]
+                keys = ("ff_c", "lat_c", "fb_c") if cfg.get("names") else ("feedfwd", "lateral", "feedback")     # intermediates are keyed by connection name
+                return list(r[0]), [r[1][k] for k in keys]
             return list(r), None
 
         for pos, op in enumerate(desc["ops"]):
